@@ -1,10 +1,7 @@
 import DoraModel.X64.Lemmas
-import DoraModel.X64.AddrMethods0
-import DoraModel.X64.AddrMethods1
-import DoraModel.X64.ArrayLemmas0
-import DoraModel.X64.ArrayLemmas1
-import DoraModel.X64.ArrayLemmas2
-import DoraModel.X64.ArrayLemmas3
+import DoraModel.X64.Interface
+import DoraModel.Props.C07Addr
+import DoraModel.Props.C07Jumps
 import DoraModel.Gen.X64Thm0
 import DoraModel.Gen.X64Thm1
 import DoraModel.Gen.X64Thm2
@@ -27,15 +24,28 @@ decoder (`X64/Dec.lean`) and the requested instruction per method (`X64/Spec.lea
 
 * Register-only methods (120): one generated theorem each, `Gen/X64Thm*.lean` (`<method>_ok`), exhaustive over all
   16 registers per operand, all 28 condition names and both `has_avx2` values; counted as obligations by the check.
+* Address-taking methods with register operands (43: `ra`, `ar`, `xa`, `ax`, `xxa`): five generated theorems each,
+  `Gen/X64Addr*.lean` (`<method>_addr`, `_offset_ok`, `_index_ok`, `_array_ok`, `_rip_ok`), for all registers, all four
+  `Address` constructors with all bases / indexes / scales they accept and **every** i32 displacement: the bytes decode
+  to exactly the Spec entry, nothing left over; refused exactly when the `has_avx2` guard fails. Imported through
+  `Props/C07Addr.lean`; counted as obligations by the check.
 * This file: the interface lemmas (ModRM / SIB / REX fields; every `Address` constructor × all 16 bases × all index
   registers × all scales × **every** i32 displacement, incl. the rsp/r12 SIB-required and rbp/r13 disp-required cases;
   little-endian / sign-extension round trips), the per-method theorems of the register+immediate methods for **every**
-  i64 immediate (guard ⇒ decodes to the Spec entry, ¬guard ⇒ refused), and the jump theorems.
+  i64 immediate (guard ⇒ decodes to the Spec entry, ¬guard ⇒ refused), and the boundary scenarios of the
+  label-addressed operands (`jumps_land_partial`).
+* Label resolution in general (`Props/C07Jumps.lean`, imported here; helper lemmas `X64/Jumps*.lean`): for an ARBITRARY
+  script of raw bytes / `bind_label` / `jmp` / `jcc` / `jmp_near` / `jcc_near` run through the regenerated methods and
+  `resolve_jumps`: `jumps_land` (every jump decodes to the requested instruction and its displacement added to the end
+  of the instruction is the position its label was bound to — forward and backward, rel8 and rel32),
+  `labels_bound_where_placed`, `jump_form` (rel32 exactly for `jmp`/`jcc` unless the label is behind within reach),
+  `raw_untouched`, `unbound_label_refused`, `near_backward_out_of_range_refused`.
 
-What is NOT proved here (compared by the sweep + llvm-mc only): the per-method statements of the 51 methods that take
-an `Address` except `movq_ra`/`movq_ar` with `Address::offset` (the address part of the others is covered by the `address_*_decodes` lemmas, their opcode/REX part only by the sweep),
-`testl_ri` (does not hold: known finding), the four `*round*_ri` AVX forms, and label resolution beyond
-`jumps_land_partial`.
+What is NOT proved here (compared by the sweep + llvm-mc only): the nine address+immediate methods (`cmpb_ai`, `cmpl_ai`,
+`cmpq_ai`, `movb_ai`, `movl_ai`, `movq_ai`, `testb_ai`, `testl_ai`, `testq_ai`: their address part is covered by the
+`address_*_decodes` lemmas, their opcode/REX/immediate part only by the sweep), `testl_ri` (does not hold: known
+finding), the four `*round*_ri` AVX forms, and label resolution for the label-ADDRESSED loads (`*_rl`, via
+`emit_label_address`) beyond the scenarios of `jumps_land_partial` (scripts mixing them with jumps are swept only).
 -/
 set_option linter.unusedSimpArgs false
 set_option maxRecDepth 4000
@@ -97,14 +107,8 @@ displacement even when it is 0), every reg field and **every** i32 displacement 
 exactly `disp(%base)`, the reg field, and leaves the following bytes untouched. -/
 theorem address_offset_decodes (base : Fin 16) (reg : Fin 8) (disp : Int32) (tail : Dec.Bytes) :
     addrDecoded reg.val (Address.offset (R base) disp) tail
-      = .ok (some (reg.val, .mem (.mem (some base.val) none disp.toInt), tail)) := by
-  revert reg
-  refine forall_fin16 (p := fun b => ∀ reg : Fin 8, addrDecoded reg.val (Address.offset (Rn b) disp) tail
-      = .ok (some (reg.val, .mem (.mem (some b) none disp.toInt), tail))) ?_ ?_ ?_ ?_ ?_ ?_ ?_ ?_ ?_ ?_ ?_ ?_ ?_ ?_ ?_ ?_ base
-  all_goals
-    refine forall_fin8 (p := fun r => addrDecoded r (Address.offset (Rn _) disp) tail
-      = .ok (some (r, .mem (.mem (some _) none disp.toInt), tail))) ?_ ?_ ?_ ?_ ?_ ?_ ?_ ?_
-  all_goals addr_classes Address.offset disp
+      = .ok (some (reg.val, .mem (.mem (some base.val) none disp.toInt), tail)) :=
+  Dora.X64.address_offset_decodes base reg disp tail
 
 example : addrDecoded 2 (Address.offset (R 13) 0) [0xCC] = .ok (some (2, .mem (.mem (some 13) none 0), [0xCC])) :=
   address_offset_decodes 13 2 0 [0xCC]
@@ -114,39 +118,23 @@ scale, reg field and i32 displacement. -/
 theorem address_index_decodes (index : Fin 16) (hi : index.val ≠ 4) (scale : Fin 4) (reg : Fin 8) (disp : Int32)
     (tail : Dec.Bytes) :
     addrDecoded reg.val (Address.index (R index) (Sn scale.val) disp) tail
-      = .ok (some (reg.val, .mem (.mem none (some (index.val, 2 ^ scale.val)) disp.toInt), tail)) := by
-  revert hi scale reg
-  refine forall_fin16 (p := fun i => i ≠ 4 → ∀ (scale : Fin 4) (reg : Fin 8),
-      addrDecoded reg.val (Address.index (Rn i) (Sn scale.val) disp) tail
-        = .ok (some (reg.val, .mem (.mem none (some (i, 2 ^ scale.val)) disp.toInt), tail)))
-    ?_ ?_ ?_ ?_ ?_ ?_ ?_ ?_ ?_ ?_ ?_ ?_ ?_ ?_ ?_ ?_ index
-  all_goals intro hi
-  all_goals first
-    | (exfalso; omega)
-    | (refine forall_fin4 (p := fun s => ∀ reg : Fin 8, addrDecoded reg.val (Address.index (Rn _) (Sn s) disp) tail
-          = .ok (some (reg.val, .mem (.mem none (some (_, 2 ^ s)) disp.toInt), tail))) ?_ ?_ ?_ ?_
-       all_goals
-         refine forall_fin8 (p := fun r => addrDecoded r (Address.index (Rn _) (Sn _) disp) tail
-           = .ok (some (r, .mem (.mem none (some (_, 2 ^ _)) disp.toInt), tail))) ?_ ?_ ?_ ?_ ?_ ?_ ?_ ?_
-       all_goals (rw [← le32_roundtrip disp]; kernel_rfl))
+      = .ok (some (reg.val, .mem (.mem none (some (index.val, 2 ^ scale.val)) disp.toInt), tail)) :=
+  Dora.X64.address_index_decodes index hi scale reg disp tail
 
 example : addrDecoded 0 (Address.index (R 12) (Sn 3) (-1)) [] = .ok (some (0, .mem (.mem none (some (12, 8)) (-1)), [])) :=
   address_index_decodes 12 (by decide) 3 0 (-1) []
 
 /-- `Address::index` refuses rsp as index (it cannot be encoded). -/
 theorem address_index_refuses_rsp (scale : Fin 4) (disp : Int32) :
-    isError (Address.index (R 4) (Sn scale.val) disp) = true := by
-  refine forall_fin4 (p := fun s => isError (Address.index (R 4) (Sn s) disp) = true) ?_ ?_ ?_ ?_ scale
-  all_goals kernel_rfl
+    isError (Address.index (R 4) (Sn scale.val) disp) = true :=
+  Dora.X64.address_index_refuses_rsp scale disp
 
 example : isError (Address.index (R 4) (Sn 0) 8) = true := address_index_refuses_rsp 0 8
 
 /-- `Address::rip(disp)`: every reg field and i32 displacement reads back as `disp(%rip)`. -/
 theorem address_rip_decodes (reg : Fin 8) (disp : Int32) (tail : Dec.Bytes) :
-    addrDecoded reg.val (Address.rip disp) tail = .ok (some (reg.val, .mem (.ripRel disp.toInt), tail)) := by
-  refine forall_fin8 (p := fun r => addrDecoded r (Address.rip disp) tail
-    = .ok (some (r, .mem (.ripRel disp.toInt), tail))) ?_ ?_ ?_ ?_ ?_ ?_ ?_ ?_ reg
-  all_goals (rw [← le32_roundtrip disp]; kernel_rfl)
+    addrDecoded reg.val (Address.rip disp) tail = .ok (some (reg.val, .mem (.ripRel disp.toInt), tail)) :=
+  Dora.X64.address_rip_decodes reg disp tail
 
 example : addrDecoded 7 (Address.rip 2147483647) [] = .ok (some (7, .mem (.ripRel 2147483647), [])) :=
   address_rip_decodes 7 2147483647 []
@@ -158,28 +146,8 @@ covered by `modrm_fields`; it is independent of the rest: `decodeModRM` passes o
 theorem address_array_decodes (base : Fin 16) (index : Fin 16) (hi : index.val ≠ 4 ∧ index.val ≠ 12) (scale : Fin 4)
     (disp : Int32) (tail : Dec.Bytes) :
     addrOperand (Address.array (R base) (R index) (Sn scale.val) disp) tail
-      = .ok (some (.mem (.mem (some base.val) (some (index.val, 2 ^ scale.val)) disp.toInt), tail)) := by
-  revert index
-  refine forall_fin16 (p := fun b => ∀ index : Fin 16, (index.val ≠ 4 ∧ index.val ≠ 12) →
-      addrOperand (Address.array (Rn b) (R index) (Sn scale.val) disp) tail
-        = .ok (some (.mem (.mem (some b) (some (index.val, 2 ^ scale.val)) disp.toInt), tail)))
-    ?_ ?_ ?_ ?_ ?_ ?_ ?_ ?_ ?_ ?_ ?_ ?_ ?_ ?_ ?_ ?_ base
-  · exact fun i hi => array_base0 i hi scale disp tail
-  · exact fun i hi => array_base1 i hi scale disp tail
-  · exact fun i hi => array_base2 i hi scale disp tail
-  · exact fun i hi => array_base3 i hi scale disp tail
-  · exact fun i hi => array_base4 i hi scale disp tail
-  · exact fun i hi => array_base5 i hi scale disp tail
-  · exact fun i hi => array_base6 i hi scale disp tail
-  · exact fun i hi => array_base7 i hi scale disp tail
-  · exact fun i hi => array_base8 i hi scale disp tail
-  · exact fun i hi => array_base9 i hi scale disp tail
-  · exact fun i hi => array_base10 i hi scale disp tail
-  · exact fun i hi => array_base11 i hi scale disp tail
-  · exact fun i hi => array_base12 i hi scale disp tail
-  · exact fun i hi => array_base13 i hi scale disp tail
-  · exact fun i hi => array_base14 i hi scale disp tail
-  · exact fun i hi => array_base15 i hi scale disp tail
+      = .ok (some (.mem (.mem (some base.val) (some (index.val, 2 ^ scale.val)) disp.toInt), tail)) :=
+  Dora.X64.address_array_decodes base index hi scale disp tail
 
 example : addrOperand (Address.array (R 13) (R 9) (Sn 2) 0) [] = .ok (some (.mem (.mem (some 13) (some (9, 4)) 0), [])) :=
   address_array_decodes 13 9 (by decide) 2 0 []
@@ -362,25 +330,6 @@ theorem call_rel32_ok (avx : Bool) (disp : Int32) :
 example : (enc false (call_rel32 (-5))).map decode = .ok (some ({ mnem := .call, ops := [.rel (-5)] }, [])) :=
   call_rel32_ok false (-5)
 
-/-! ## address-taking methods (two representatives; the other 49 are compared by the sweep only) -/
-
-/-- `movq_ra(reg, Address::offset(base, disp))` — a load: both `has_avx2` values, all 16 × 16 registers and **every**
-i32 displacement: the bytes decode to exactly `movq disp(%base), %reg` (the Spec entry), nothing left over. -/
-theorem movq_ra_offset_ok (avx : Bool) (reg base : Fin 16) (disp : Int32) :
-    viaOffset avx (fun a => movq_ra (R reg) a) (R base) disp
-      = .ok (want (Spec.movq_ra (R reg) (.off (R base) disp))) := movq_ra_offset_all avx reg base disp
-
-example : viaOffset false (fun a => movq_ra (R 9) a) (R 12) (-129) = .ok (want (Spec.movq_ra (R 9) (.off (R 12) (-129)))) :=
-  movq_ra_offset_ok false 9 12 (-129)
-
-/-- `movq_ar(Address::offset(base, disp), reg)` — a store: same quantifiers. -/
-theorem movq_ar_offset_ok (avx : Bool) (reg base : Fin 16) (disp : Int32) :
-    viaOffset avx (fun a => movq_ar a (R reg)) (R base) disp
-      = .ok (want (Spec.movq_ar (.off (R base) disp) (R reg))) := movq_ar_offset_all avx reg base disp
-
-example : viaOffset true (fun a => movq_ar a (R 3)) (R 13) 0 = .ok (want (Spec.movq_ar (.off (R 13) 0) (R 3))) :=
-  movq_ar_offset_ok true 3 13 0
-
 /-! ## jumps and label-addressed operands -/
 
 /-- the distances at which the rel8 / rel32 choice and the rel8 range limit are decided -/
@@ -393,10 +342,12 @@ distances around the rel8 limit: after `resolve_jumps` the instruction decodes t
 displacement, added to the end of the instruction, is exactly the position the label was bound to. The far forms are
 never refused; the near forms are refused (not mis-encoded) exactly when the distance does not fit.
 
-FULL STATEMENT (not proved): for every program — any instruction mix, any number of labels and references, any
-buffer positions below 2^31 — every label operand lands on its label. Missing: an invariant for `resolve_jumps`
-over an arbitrary `unresolved_jumps` list (each patch rewrites exactly the displacement field of its own instruction).
-The sweep checks this on generated programs (status `ok` requires it). -/
+The general statement for the four jump methods — any script, any number of labels and references — is `jumps_land`
+in Props/C07Jumps.lean. What remains partial here: the label-ADDRESSED operands (`movq_rl` and the other `*_rl` methods,
+`emit_label_address`), for which only these scenarios are proved. FULL STATEMENT (not proved): in every program that
+also contains `*_rl` methods, every RIP-relative label operand decodes to the position its label was bound to. Missing:
+`*_rl` operations in the script type of X64/Jumps4.lean (their pending entries are `Far` entries of the same list, so
+the invariant of `resolve_jumps` already covers them; the per-method prefix bytes are not modelled there). -/
 theorem jumps_land_partial :
     (bools.all fun avx => boundaryDistances.all fun k =>
       forwardOk avx k jmp Spec.jmp false && backwardOk avx k jmp Spec.jmp false &&
